@@ -259,6 +259,19 @@ func VpHKeyRegistry() {
 	}
 	vpAssert(open == 0 && fs.bad == "", "C23:keyreg.no-descriptor-left-open")
 
+	// ---- optional rewrite of the whole registry, as master-key rotation (`badger rotate`) does:
+	// the real WriteKeyRegistry dumps reg.dataKeys in MAP order, so after it the newest key need
+	// not be the last record of the file ----
+	if len(ref) >= 2 && vpChoose("rewrite", 2) == 1 {
+		vpConfig("maporder", 1)
+		werr := WriteKeyRegistry(kr, opt)
+		vpConfig("maporder", 0)
+		vpAssert(werr == nil, "C23:keyreg.rewrite-succeeds")
+		f = fs.lookup(path)
+		vpAssert(f != nil && f.exists, "C23:keyreg.rewrite-succeeds")
+		vpCover("keyreg.rewritten")
+	}
+
 	// ---- re-open ----
 	image := append([]byte{}, f.data...)
 	mode := vpChoose("reopen", 4)
